@@ -418,5 +418,71 @@ func Observe(d *document.Document, counts bool) string {
 	}
 	sort.Strings(sts)
 	fmt.Fprintf(&b, "styles=%d/%s;", len(all), sim.Digest([]byte(strings.Join(sts, "\n"))))
+	// every style resolved along its based-on chain, the registry's typed views, and the registry again afterwards
+	// (reading must not write)
+	sm := d.GetStyleManager()
+	var ids []string
+	for _, st := range all {
+		ids = append(ids, st.StyleID)
+	}
+	sort.Strings(ids)
+	var res bytes.Buffer
+	for _, id := range ids {
+		x, _ := xml.Marshal(sm.GetStyleWithInheritance(id))
+		fmt.Fprintf(&res, "%s=%s;%v;", id, sim.Digest(x), sm.StyleExists(id))
+	}
+	api := style.NewQuickStyleAPI(sm)
+	fmt.Fprintf(&b, "resolved=%s;views=%d,%d,%d,%d,%d;", sim.Digest(res.Bytes()), len(sm.GetHeadingStyles()), len(sm.GetStylesByType(style.StyleTypeParagraph)),
+		len(api.GetAllStylesInfo()), len(api.GetParagraphStylesInfo()), len(api.GetCharacterStylesInfo()))
+	var sts2 []string
+	for _, st := range sm.GetAllStyles() {
+		x, _ := xml.Marshal(st)
+		sts2 = append(sts2, string(x))
+	}
+	sort.Strings(sts2)
+	fmt.Fprintf(&b, "styles_after_reads=%s;", sim.Digest([]byte(strings.Join(sts2, "\n"))))
+	// tables through the remaining read accessors
+	var tb bytes.Buffer
+	for ti, t := range ts {
+		if ti >= 3 {
+			break
+		}
+		rows, cols := t.GetRowCount(), t.GetColumnCount()
+		for i := 0; i < rows && i < 6; i++ {
+			hdr, _ := t.IsRowHeader(i)
+			keep, _ := t.IsRowKeepTogether(i)
+			rh, _ := t.GetRowHeight(i)
+			fmt.Fprintf(&tb, "r%d:%v,%v,%v|", i, hdr, keep, rh != nil)
+			_ = t.ForEachInRow(i, func(col int, cell *document.TableCell, text string) error { fmt.Fprintf(&tb, "%d:%s,", col, text); return nil })
+			for j := 0; j < cols && j < 6; j++ {
+				mi, e1 := t.GetMergedCellInfo(i, j)
+				cf, e2 := t.GetCellFormat(i, j)
+				td, e3 := t.GetCellTextDirection(i, j)
+				cps, e4 := t.GetCellParagraphs(i, j)
+				nts, e5 := t.GetNestedTables(i, j)
+				fmt.Fprintf(&tb, "c%d,%d:%v/%v/%v/%v/%v;m=%v;f=%v;d=%v;p=%d;n=%d|", i, j, e1 != nil, e2 != nil, e3 != nil, e4 != nil, e5 != nil, sortedMap(mi), cf != nil, td, len(cps), len(nts))
+			}
+		}
+		if cols > 0 {
+			_ = t.ForEachInColumn(0, func(row int, cell *document.TableCell, text string) error { fmt.Fprintf(&tb, "%d:%s,", row, text); return nil })
+		}
+		found, _ := t.FindCells(func(row, col int, cell *document.TableCell, text string) bool { return text != "" })
+		lay := t.GetTableLayout()
+		fmt.Fprintf(&tb, "found=%d;layout=%v;break=%s|", len(found), lay != nil, sortedMap(t.GetTableBreakInfo()))
+	}
+	fmt.Fprintf(&b, "tbl=%s;", sim.Digest(tb.Bytes()))
+	return b.String()
+}
+
+func sortedMap(m map[string]interface{}) string {
+	ks := make([]string, 0, len(m))
+	for k := range m {
+		ks = append(ks, k)
+	}
+	sort.Strings(ks)
+	var b bytes.Buffer
+	for _, k := range ks {
+		fmt.Fprintf(&b, "%s=%v,", k, m[k])
+	}
 	return b.String()
 }
